@@ -35,7 +35,7 @@ ATTR_ORDER = {"xy": (X, Y), "wh": (X, Y), "lonlat": (X, Y), "yx": (Y, X), "latlo
 
 # name stems: <stem>x / x<stem> ; the twin is obtained by swapping the axis letter
 _PRE = r"(?:n|t|s|r|i|o|w|p|b|d|f|c|m|a|off|pad|align|flip|span_?|range_?|res_?|sz_?|size_?|min|max|fr|_)"
-_POST = r"(?:[0-9]+|_?res|_?off|_?buff|_?bin|_?size|_?sz|_?dim|_?range|_?idx|_|s|c)"
+_POST = r"(?:[0-9]+|_?res|_?off|_?buff|_?bin|_?size|_?sz|_?dim|_?dir|_?range|_?idx|_?step|_?pad|_|s|c)"
 RX_X = re.compile(rf"^_*(?:{_PRE})*x(?:{_POST})*_*$")
 RX_Y = re.compile(rf"^_*(?:{_PRE})*y(?:{_POST})*_*$")
 WORD_X = {"w": "h", "width": "height", "col": "row", "cols": "rows", "lon": "lat", "NX": "NY", "sw": "sh", "dw": "dh", "ncols": "nrows", "xx": "yy", "_xx": "_yy", "XX": "YY"}
